@@ -75,6 +75,10 @@ RACE_BASELINE_FUNCS = {
     "storage.(*MemStorage).GetRouter",
     "state.(*State).AddPublicRouterInfo",
     "state.(*State).MarkRouterOffline",
+    # the hello response handler re-arms the expiry of its ping state (a time.Time) outside the
+    # lock under which getActive reads it (a stale or torn expiry only delays or repeats a hello).
+    "router.(*HelloPingHandler).getActive",
+    "router.(*HelloPingHandler).handlePingHelloResponse",
 }
 
 
